@@ -63,11 +63,26 @@ def format_enum(t):
             R.T_EVENTS: n.ev.TemporalEventsDataFormat}[t]
 
 
+MEM_LAYOUTS = ("fortran", "bigendian", "strided", "readonly")
+
+
 def _mem(a, dtype, mem):
-    """In-memory representation handed to the library: on-disk dtype or float64."""
+    """In-memory representation handed to the library: on-disk dtype (C order, little endian), float64,
+    or the same values in another memory layout (column-major, big-endian, a strided view into a
+    larger buffer, a read-only array) - the values are the same, so must be everything stored."""
     a = np.array(a, dtype=dtype)
     if mem == "f8" and a.dtype.kind == "f":
         return a.astype(np.float64)
+    if mem == "fortran":
+        return np.asfortranarray(a)
+    if mem == "bigendian":
+        return a.astype(a.dtype.newbyteorder(">"))
+    if mem == "strided" and a.ndim >= 1 and a.shape[0] >= 1:
+        big = np.full((2 * a.shape[0],) + a.shape[1:], 7777, dtype=a.dtype)
+        big[::2] = a
+        return big[::2]
+    if mem == "readonly":
+        a.setflags(write=False)
     return a
 
 
@@ -114,18 +129,18 @@ def build_item(t, item, sp, mem="disk", vp="array"):
         v = viewport(item["origin"], item["size"], vp)
         if sp["format"] == 1:
             return n.cal.SeelabCameraData(
-                np.array(item["R"], "<f8"), np.array(item["T"], "<f8"), np.array(item["focus"], "<f8"),
-                np.array(item["center"], "<f8"), np.array(item["radial"], "<f8"),
-                np.array(item["decentering"], "<f8"), np.array(item["thin"], "<f8"), v)
+                _mem(item["R"], "<f8", mem), _mem(item["T"], "<f8", mem), _mem(item["focus"], "<f8", mem),
+                _mem(item["center"], "<f8", mem), _mem(item["radial"], "<f8", mem),
+                _mem(item["decentering"], "<f8", mem), _mem(item["thin"], "<f8", mem), v)
         return n.cal.BTSCameraData(
-            np.array(item["R"], "<f8"), np.array(item["T"], "<f8"), np.array(item["focus"], "<f8"),
-            np.array(item["center"], "<f8"), np.array(item["xd"], "<f8"), np.array(item["yd"], "<f8"), v)
+            _mem(item["R"], "<f8", mem), _mem(item["T"], "<f8", mem), _mem(item["focus"], "<f8", mem),
+            _mem(item["center"], "<f8", mem), _mem(item["xd"], "<f8", mem), _mem(item["yd"], "<f8", mem), v)
     if t == R.T_OPT:
         return n.opt.OpticalChannelData(int(item["index"]), item["lens"], item["ctype"], item["name"],
                                         viewport(item["origin"], item["size"], vp))
     if t == R.T_EVENTS:
         vals = item["values"]
-        vals = np.array(vals, "<f4") if mem == "disk" else [float(x) for x in np.asarray(vals, "<f4")]
+        vals = [float(x) for x in np.asarray(vals, "<f4")] if mem == "f8" else _mem(vals, "<f4", mem)
         return n.ev.Event(item["label"], vals, n.ev.EventsDataType(item["etype"]))
     raise ValueError(t)
 
